@@ -75,7 +75,7 @@ def main():
         # 3. coverage of the named actions
         open(os.path.join(d, 'MCrun.tla'), 'w').write('---- MODULE MCrun ----\nEXTENDS MC_ArgParse\nc_POptSets == {<<"HelpFlag", "PassDoubleDash", "PrintErrors">>, <<"IgnoreUnknown", "PassAfterNonOption">>}\n====\n')
         cfg = ('SPECIFICATION Spec\nCONSTANTS\n  Defects = {}\n  DeclIds = {3, 4}\n  MaxLen = 2\n  POptSets <- c_POptSets\n  Handlers = {"none"}\n'
-               '  Policy = {"opts", "cmds", "odd", "unknown"}\n  Emit = FALSE\nINVARIANTS Deterministic Conservation\nCHECK_DEADLOCK FALSE\n')
+               '  Policy = {"opts", "cmds", "odd", "unknown"}\n  PreMode = "none"\n  Emit = FALSE\nINVARIANTS Deterministic Conservation\nCHECK_DEADLOCK FALSE\n')
         rc, out = ctx.tlc(d, 'MCrun', cfg, workers=NCPU, timeout=1200, extra=['-coverage', '1'])
         names = ['Start', 'Terminator', 'PassAfterNonOption', 'NonOptPositional', 'NonOptCommand', 'NonOptUnknownCommand', 'NonOptRest', 'LongOpt', 'ShortBegin',
                  'ShortRune', 'LoopEnd', 'ApplyDefaults', 'CheckRequired', 'DiagnoseCommand', 'Dispatch', 'SkipToReturn', 'Return']
